@@ -1336,13 +1336,13 @@ func (c *Compiler) writeNodeLC(node_ *node, v, fn string, depth int) error {
 			c.wl("*result=", fn, "(", c.fmtVnb(node_, v, depth), ")")
 			c.wl("return nil")
 		} else {
-			if !node_.slct.hasc {
-				return nil
-			}
 			c.wl("if len(path)==", depths, "{")
 			c.wl("*result=", fn, "(", c.fmtVnb(node_, v, depth), ")")
 			c.wl("return nil")
 			c.wl("}")
+			if !node_.slct.hasc {
+				return nil
+			}
 			c.wl("if len(path) < ", strconv.Itoa(depth+1), " { return nil }")
 
 			nv := "x" + strconv.Itoa(depth)
